@@ -303,6 +303,111 @@ example : initSt exEnv [("/S/c2/pypyr/config.yaml", .mapping [("bogus", .int 1)]
                         ("pypyr-config.yaml", .mapping [("json_indent", .int 6)])]
     = (defaults exEnv, some (.unknownProps ["bogus"])) := by decide +kernel
 
+/-! ### 4b. The set of accepted keys is EXACTLY the writable property set
+
+  Keys of a file are strings in the model (`Ctx`). A key that is not a `str` in Python (YAML allows `1:`, `true:`,
+  `null:`, `1.5:`) reaches the model as the string `<non-str {repr}>` (`key_str` in harness/props/c20.py): a name that
+  is not in `allWritableProps` (`nonstr_key_never_writable`), so such a key is an unknown setting like any other - what the
+  code does too (`keys - Config.all_writable_props` is a set difference on hash/equality, and no non-`str` object equals one
+  of the 17 names). The names of OTHER attributes of the `Config` object (`skip_init`, `cwd`, `platform`, `pyproject_toml`,
+  `init`, `update`, `_skip_init`, `__class__` ...) are not in the set either: being an attribute is not being a setting. -/
+
+/-- which keys `unknownKeys` names: the keys of the file outside the writable set, no other -/
+theorem unknownKeys_mem (kvs : Ctx) (k : String) :
+    k ∈ unknownKeys kvs ↔ k ∈ kvs.map (·.1) ∧ k ∉ allWritableProps := by
+  simp [unknownKeys]
+
+/-- **key_outside_writable_rejected_atomically.** For every state of the object, every key list, every value and
+    either iteration order of the sets (`updateOrd rev`): if SOME key of the mapping is outside
+    `Config.all_writable_props` - whatever else the name may denote - then `Config.update` returns the object
+    UNCHANGED (none of the valid settings next to it applied) and raises the ConfigError `Unexpected config props`
+    naming exactly the keys outside the set. -/
+theorem key_outside_writable_rejected_atomically (rev : Bool) (st : ConfigState) (kvs : Ctx)
+    (h : ∃ k ∈ kvs.map (·.1), k ∉ allWritableProps) :
+    updateOrd rev st kvs = (st, some (.unknownProps (unknownKeys kvs))) ∧
+    (∀ k, k ∈ unknownKeys kvs ↔ k ∈ kvs.map (·.1) ∧ k ∉ allWritableProps) ∧
+    (CfgErr.unknownProps (unknownKeys kvs)).isConfigError = true := by
+  have hne := (unknownKeys_ne_nil_iff kvs).2 h
+  refine ⟨?_, unknownKeys_mem kvs, rfl⟩
+  have hu : (unknownKeys kvs).isEmpty = false := by
+    cases hk : unknownKeys kvs with
+    | nil => exact absurd hk hne
+    | cons _ _ => rfl
+  simp [updateOrd, hu]
+
+example : (∃ k ∈ ([("json_indent", Val.int 4), ("skip_init", .bool true), ("cwd", .str "/x"), ("__class__", .int 1)] : Ctx).map (·.1),
+      k ∉ allWritableProps) ∧
+    updateOrd true (defaults exEnv) [("json_indent", .int 4), ("skip_init", .bool true), ("cwd", .str "/x"), ("__class__", .int 1)]
+      = (defaults exEnv, some (.unknownProps ["skip_init", "cwd", "__class__"])) := by
+  refine ⟨⟨"skip_init", by decide +kernel, by decide +kernel⟩, by decide +kernel⟩
+
+/-- **update_accepts_iff_all_keys_writable.** For all states, key lists, values and both set orders: `Config.update`
+    raises no "Unexpected config props" error iff EVERY key of the mapping is one of the writable props. (What it may
+    still raise then is `dict.update`'s own TypeError / ValueError for a refused `vars` / `shortcuts` value:
+    `update_raises_in_either_order`.) -/
+theorem update_accepts_iff_all_keys_writable (rev : Bool) (st : ConfigState) (kvs : Ctx) :
+    (∀ ks, (updateOrd rev st kvs).2 ≠ some (.unknownProps ks)) ↔ ∀ k ∈ kvs.map (·.1), k ∈ allWritableProps := by
+  constructor
+  · intro hno k hk
+    apply Classical.byContradiction
+    intro hout
+    have := (key_outside_writable_rejected_atomically rev st kvs ⟨k, hk, hout⟩).1
+    exact hno _ (by rw [this])
+  · intro hall ks hks
+    have hnil : unknownKeys kvs = [] := by
+      apply Classical.byContradiction
+      intro hne
+      obtain ⟨k, hk, hout⟩ := (unknownKeys_ne_nil_iff kvs).1 hne
+      exact hout (hall k hk)
+    have h : updateOrd rev st kvs = ((updateOrd rev st kvs).1, some (.unknownProps ks)) := Prod.ext rfl hks
+    rcases (updateOrd_err_state rev st _ kvs _ h).2.2.2 with ⟨hne, _⟩ | ⟨_, n, exc, he, _⟩
+    · exact hne hnil
+    · cases he
+
+/-- ... and with every key writable and every dict-prop value a mapping, nothing is raised at all -/
+example : (∀ k ∈ ([("json_indent", Val.int 4), ("vars", .dict [(.str "a", .int 1)])] : Ctx).map (·.1), k ∈ allWritableProps) ∧
+    (updateOrd false (defaults exEnv) [("json_indent", .int 4), ("vars", .dict [(.str "a", .int 1)])]).2 = none ∧
+    ¬ (∀ k ∈ ([("json_indent", Val.int 4), ("platform", .str "linux")] : Ctx).map (·.1), k ∈ allWritableProps) := by
+  decide +kernel
+
+/-- **file_with_key_outside_writable_fails_init.** Lifted to `init()`, on any object, under any environment and file
+    system: when the look-ups before `l` went through and the file at `l` is a mapping with some key outside the
+    writable set, `init()` raises the ConfigError naming those keys and the object is exactly the object after the LOWER
+    files only - nothing of the rejected file (its valid settings included), nothing of the files after it. -/
+theorem file_with_key_outside_writable_fails_init (st st1 : ConfigState) (e : Env) (fs : Files)
+    (lower higher : List Look) (l : Look) (kvs : Ctx)
+    (hs : e.skip = false) (hp : e.platformFails = false)
+    (hsplit : lookOrder e = lower ++ l :: higher)
+    (hlow : runLooks fs st lower = (st1, none))
+    (hfile : fs.get? l.path = some (.mapping kvs))
+    (h : ∃ k ∈ kvs.map (·.1), k ∉ allWritableProps) :
+    initOn st e fs = (st1, some (.unknownProps (unknownKeys kvs))) ∧
+    (CfgErr.unknownProps (unknownKeys kvs)).isConfigError = true := by
+  refine ⟨?_, rfl⟩
+  rw [initOn_unfold st e fs hs hp, hsplit]
+  apply runLooks_append_reject hlow
+  simp only [handlePath, load, hfile]
+  exact (unknown_rejected_atomically st1 l.path kvs ((unknownKeys_ne_nil_iff kvs).2 h)).1
+
+-- `skip_init: true` next to a valid setting in the user file, a valid lower file, a valid local file: ConfigError, the
+-- lower file's setting stays, neither `json_indent: 4` of the rejected file nor the local file is applied
+example :
+    initSt exEnv [("/S/c2/pypyr/config.yaml", .mapping [("log_notify_format", .str "LOW")]),
+                  ("/S/xh/pypyr/config.yaml", .mapping [("json_indent", .int 4), ("skip_init", .bool true)]),
+                  ("pypyr-config.yaml", .mapping [("json_indent", .int 6)])] =
+      ({ defaults exEnv with
+          scalars := overwriteScalars (defaults exEnv).scalars [("log_notify_format", .str "LOW")],
+          loaded := ["/S/c2/pypyr/config.yaml"] },
+       some (.unknownProps ["skip_init"])) := by
+  decide +kernel
+
+/-- no writable prop starts with `<`: the image `<non-str …>` of a non-`str` key is never a writable name -/
+theorem nonstr_key_never_writable (r : String) : ("<non-str " ++ r ++ ">") ∉ allWritableProps := by
+  intro hmem
+  have h1 : ∀ k ∈ allWritableProps, k.toList.head? ≠ some '<' := by decide +kernel
+  apply h1 _ hmem
+  simp [String.toList_append]
+
 /-! ### 5. Non-mapping file: rejected (falsy ones too) -/
 
 /-- **non_mapping_rejected.** A file whose top level is not a mapping — truthy (`[1]`, `5`,
@@ -864,6 +969,26 @@ theorem config_props_agree :
     Generated.ConfigProps.dictProps = dictProps ∧
     Generated.ConfigProps.scalarPropsExpr = "all_writable_props - dict_props" ∧
     Generated.ConfigProps.defaultsTable = defaultsTable := by decide +kernel
+
+/-- **update_check_agrees.** The unknown-setting test of `Config.update` in the source under test IS membership in the
+    extracted property set: the one expression ever assigned to `difference` is `keys - Config.all_writable_props`
+    (`unknownKeys`), `keys` is `input.keys()`, the only raise is `if difference: raise ConfigError` BEFORE anything is
+    written (`updateOrd`'s first branch), step 2 iterates `keys & Config.dict_props` with `dict.update`, step 3
+    `keys & Config.scalar_props` with `setattr` - the whole body, statement by statement, is the one the model was
+    written from. Together with `config_props_agree` (the set itself) this ties `unknownKeys` / `updateOrd` to the code;
+    any other test (`hasattr(self, k)`, `k.lower()`, only `str` keys ...) breaks this obligation. -/
+theorem update_check_agrees :
+    Generated.ConfigProps.updateArgs = ["self", "input"] ∧
+    Generated.ConfigProps.updateDifference = ["keys - Config.all_writable_props"] ∧
+    Generated.ConfigProps.updateRaises = ["if difference: raise pypyr.errors.ConfigError"] ∧
+    Generated.ConfigProps.updateBody =
+      ["keys = input.keys()",
+       "difference = keys - Config.all_writable_props",
+       "if difference:\n    raise pypyr.errors.ConfigError(f'Unexpected config props: {difference}')",
+       "dicts = keys & Config.dict_props",
+       "for k in dicts:\n    getattr(self, k).update(input[k])",
+       "scalars = keys & Config.scalar_props",
+       "for k in scalars:\n    setattr(self, k, input[k])"] := by decide +kernel
 
 /-- **init_shape_agrees.** The `handle_path` calls of `Config.init` in source order (guard, loop
     direction, path, loader, raise_not_found), the environment variables it reads with their
